@@ -23,15 +23,23 @@ FUNCTIONS = ["strax.utils.multi_run", "Context.get_array (multi-run)", "Context.
              "Context.key_for"]
 BOUNDS = {
     "quick": "multi_run: 2..4 runs, 1..2 workers, every completion order, every set of failing runs, ignore_errors on/off; "
-             "interference: 1 action of another worker per call, before any access to the shared plugin registry",
-    "thorough": "2..6 runs, 1..4 workers; 2 interferences (the second within 8 registry accesses of the first)",
+             "interference: 1 action of another worker per call, before any access to the shared plugin registry; "
+             "cacherace: 2 real workers (runs '0', '1') on one context, every schedule with <= 1 switch (two same-kind "
+             "targets, cold and warm cache) and <= 2 switches (one target, cold cache) at the accesses to the shared "
+             "plugin cache, <= 3 switches when the first is at a cache replacement and the last within 8 switch points "
+             "of the second",
+    "thorough": "2..6 runs, 1..4 workers; 2 interferences (the second within 8 registry accesses of the first); cacherace "
+                "with <= 2 switches also for two same-kind targets",
 }
 ASSUMPTIONS = ["dict operations are atomic (GIL); interleavings inside a single dict operation are outside",
                "the other worker's actions are the mutations of the SHARED plugin registry that the real get_array performs "
                "(recorded from a real call on the same context); its reads do not disturb",
                "per-run results are concrete; the completion order / failure set / interference points are symbolic"]
-OUTSIDE = ["free-threaded CPython", "OS-level preemption inside C code", "process pools"]
-STUBS = ["strax.utils.ThreadPoolExecutor / wait -> solver-driven stub", "instrumented registry dict", "np/int/min/max shims"]
+OUTSIDE = ["free-threaded CPython", "OS-level preemption inside C code", "process pools", "3 or more concurrent workers "
+           "on one context; more than 3 thread switches; the same run id twice in one list"]
+STUBS = ["strax.utils.ThreadPoolExecutor / wait -> solver-driven stub", "instrumented registry dict", "np/int/min/max shims",
+         "Context re-classed to a subclass whose _fixed_plugin_cache is a spying data descriptor; locks of strax.context "
+         "replaced by scheduler-aware mutexes; dict.copy() modelled as one atomic step"]
 RUNS = ["0", "1", "2", "3", "4", "5"]
 
 
